@@ -335,6 +335,7 @@ class _World:
         except Exception as e:
             backend = f"?{type(e).__name__}"
         cls = out[1] if out[0] == "exc" else "digest"
+        ctx.log("out", ki, where, backend, out[:2], fired)
         sv = dec(key["secret"]["v"])
         sb = sv.encode("utf-8") if isinstance(sv, str) else sv
         try:
@@ -545,6 +546,10 @@ class _World:
             ctx.check(r == "ValueError", "C03", "unknown-backend-not-refused", f"{hname}.has_backend('nope') -> {r!r}", **attrs)
             return
         if r not in (True, False):
+            if fired and r in ("RuntimeError", "InternalBackendError", "PasslibSecurityError", "MissingBackendError"):
+                # the backend's self-test ran into an injected damaged/failed answer: reporting the backend broken is right
+                ctx.probe("self_test_hit_by_fault")
+                return
             ctx.fail("C03", "has-backend-raises", f"{hname}.has_backend({op['name']!r}): {detail}", exc=r, **attrs)
         try:
             now = self.active(hname)
